@@ -43,6 +43,8 @@ def rule_key(rule, path, msg, out):
         elif "UUIDv4" in msg:
             form = "not-v4"
         return "invalid-emitted:%s:%s" % (rule, form)
+    if rule == "unknown-extension":
+        return "invalid-emitted:unknown-extension" + (":extension-definition-in-2.0" if "'extension-definition--" in msg else "")
     if rule == "out-of-range":
         return "invalid-emitted:out-of-range:" + leaf
     if rule == "ref-type":
@@ -134,6 +136,50 @@ def check_case(case):
     return judge(obj, ver, what)
 
 
+def library_vocab_candidates(doc, ver, cname):
+    """Dictionary-guided candidates: every string in the library's own `allowed` list of an enum slot that the frozen
+    specification vocabulary does not contain (the library's tables are used as a source of *inputs*, never as the answer)."""
+    import stix2.properties as P
+    from stix2 import registry
+    out = []
+    t = doc.get("type")
+    top = registry.class_for_type(t, ver, "objects") or registry.class_for_type(t, ver, "observables")
+    if top is None:
+        return out
+    for p, val, d, owner in C.walk(doc, cname, ver):
+        if d["kind"] != "enum":
+            continue
+        cls, prop = top, None
+        try:
+            i = 0
+            while i < len(p):
+                comp = p[i]
+                if isinstance(comp, int):
+                    i += 1
+                    continue
+                prop = cls._properties[comp]
+                if isinstance(prop, P.ListProperty):
+                    prop = prop.contained
+                if isinstance(prop, P.ExtensionsProperty):
+                    cls = registry.class_for_type(p[i + 1], ver, "extensions")
+                    i += 2
+                    continue
+                if isinstance(prop, P.EmbeddedObjectProperty):
+                    cls = prop.type
+                elif isinstance(prop, type) and hasattr(prop, "_properties"):
+                    cls = prop
+                i += 1
+        except (KeyError, AttributeError, IndexError, TypeError):
+            continue
+        allowed = getattr(prop, "allowed", None)
+        if not allowed:
+            continue
+        for cand in allowed:
+            if isinstance(cand, str) and cand not in d["allowed"]:
+                out.append({"path": list(p), "op": "set", "kind": "vocab:library-only-entry", "value": cand})
+    return out
+
+
 # ---- strategies -----------------------------------------------------------------------------------------------
 OPTS = {"ts_max_digits": 6, "selectors": "any", "max_optional": 8}
 
@@ -159,8 +205,9 @@ def run(ctx):
                 "distinct = distinct (type, version, path shape, corruption kind, route).")
     ctx.assumptions = ["oracle/validator.py + specmodel/: only specification rules held with high confidence (specmodel/AUDIT.md); doubtful rules are off",
                        "third-party stix2patterns validator decides STIX pattern validity"]
-    per_doc = 60 if ctx.quick else 400
-    ndocs = ctx.n(280, 500)
+    per_doc = 25 if ctx.quick else 400
+    per_doc_box = [per_doc]
+    ndocs = ctx.n(290, 600)
     accepted = [0]
 
     def body(args):
@@ -173,9 +220,14 @@ def run(ctx):
         ctx.note(case0, False, ["valid-base", "type:%s/%s" % (ver, doc["type"])])
         ctx.handle(case0, fails)
         # deterministic stratified subset: every k-th corruption starting at a drawn offset (all of them when few)
-        n = len(cs)
-        step = max(1, n // per_doc)
-        chosen = cs[idx_seed % step::step]
+        sampled_prefixes = ("kind:", "ref:", "ts:", "id:", "remove", "hash:")
+        targeted = [c for c in cs if not c["kind"].startswith(sampled_prefixes)]
+        chosen = list(targeted)
+        for pref in sampled_prefixes:
+            grp = [c for c in cs if c["kind"].startswith(pref)]
+            step = max(1, len(grp) // per_doc)
+            chosen.extend(grp[idx_seed % step::step])
+        chosen.extend(library_vocab_candidates(doc, ver, cname))
         for c in chosen:
             case = {"ver": ver, "doc": doc, "corruptions": [c], "route": route}
             cur = C.apply(doc, c)
@@ -188,8 +240,35 @@ def run(ctx):
             ctx.note(case, bool(in_errs), ["kind:" + c["kind"].split("=")[0].split(":")[0], "route:" + route, "input-flagged" if in_errs else "input-still-valid"], fp=fp)
             ctx.handle(case, fails)
 
-    strat = st.tuples(base_doc(), st.integers(0, 10 ** 6), st.sampled_from(["parse", "parse", "parse-auto", "constructor"]))
-    core.run_given(ctx, strat, body, ndocs, label="c02-systematic")
+    # every type of both versions gets its share: the type is drawn first, uniformly
+    types = [(v, t) for v in ("2.0", "2.1") for t in G.top_types(v)]
+
+    @st.composite
+    def typed_doc(draw, ver_t):
+        ver, t = ver_t
+        opts = dict(OPTS)
+        shape = draw(st.sampled_from(["maximal", "maximal", "random", "minimal"]))
+        if shape != "random":
+            opts[shape] = True
+        return ver, draw(G.valid_object(ver, type_=t, opts=opts)), shape
+
+    per_type = max(2, ndocs // len(types))
+    for ver_t in types:
+        strat = st.tuples(typed_doc(ver_t), st.integers(0, 10 ** 6), st.sampled_from(["parse", "parse", "parse-auto", "constructor"]))
+        core.run_given(ctx, strat, body, per_type, label="c02-systematic-%s-%s" % ver_t, rounds=3)
+
+    # the eight fixed TLP instances, every corruption, every route (finite: enumerated completely)
+    ctx.collect_only = True
+    for ver in ("2.0", "2.1"):
+        m = M.get(ver)
+        for color in sorted(m.tlp):
+            doc = {"type": "marking-definition", "id": m.tlp[color], "created": m.tlp_created, "definition_type": "tlp", "definition": {"tlp": color}}
+            if ver == "2.1":
+                doc.update({"spec_version": "2.1", "name": "TLP:" + color.upper()})
+            for route in ("parse", "constructor"):
+                saved = per_doc
+                body(((ver, doc, "tlp"), 0, route))
+    ctx.collect_only = False
 
     # multi-point corruptions
     def body_multi(args):
